@@ -9,7 +9,7 @@ import ftutil as U
 ID = "C07"
 THEOREMS = ["C07_zrange", "C07_zrange_sorted", "C07_iterRange", "C07_start_pos", "C07_rangeShape",
             "C07_rangeShapeRef", "C07_ref_post", "C07_dispatch", "C07_coiter", "C07_coiterRef",
-            "C07_project", "C07_project_sorted", "C07_prune", "C07_lazy_idempotent",
+            "C07_project", "C07_project_compressed", "C07_project_sorted", "C07_prune", "C07_lazy_idempotent",
             "C07_fromLazy_partial", "C07_model_meets_spec"]
 COQ_IMPORTS = "From FT Require Import Model.Base Model.Obs Model.C07Iter Model.C07IterCheck."
 CHECK_VO = ["Model/C07IterCheck.v"]
